@@ -42,7 +42,7 @@ checks = {
     text="seeded search over (archive, schedule, fault plan): every file-system call of the real extraction/locking code is a scheduling point checked against the destination's own tree before it takes effect; the destination is verified complete at the step it becomes visible; sampling, not proof"),
   note="trusted: simulated flock (inode-keyed, dropped on crash), simulated HTTP, real kernel file semantics under /dev/shm, GNU tar as one atomic step; power loss not modelled; for .tar.xz only confinement (not rejection-with-error) is asserted because GNU tar neutralises hostile names instead of failing."),
 "C06": dict(
-  technique="deterministic simulation: the real map runtime (map.go, alg.go, hash64.go, z_map.go) with type descriptors computed by the real ssa/abi package, every random draw of the map code (hash seed, iteration start bucket/offset, NaN hashing) owned and recorded by the simulator, steps of up to three live range loops interleaved with mutations, a buggified degenerate hasher; reference model = association list checked operation by operation, iterator oracles from the Go spec; second phase: a generated map interpreter compiled by the real llgo for 25 concrete map types, C rand() behind an LD_PRELOAD seam seeded per history, same model over its printed events",
+  technique="deterministic simulation: the real map runtime (map.go, alg.go, hash64.go, z_map.go) with type descriptors computed by the real ssa/abi package, every random draw of the map code (hash seed, iteration start bucket/offset, NaN hashing) owned and recorded by the simulator, steps of up to three live range loops interleaved with mutations, a buggified degenerate hasher; reference model = association list checked operation by operation, iterator oracles from the Go spec; second phase: a generated map interpreter compiled by the real llgo (at -O0) for 53 concrete map types, C rand() behind an LD_PRELOAD seam seeded per history, same model over its printed events",
   level=dict(category="exploration", design_ref="DESIGN.md §4.3",
     text="seeded search over operation histories (5-6000 ops) x key/elem type catalogue x RNG-seam values x iterator interleavings against a trivial reference map; lookups, len, iteration completeness/no-duplicate/no-deleted, nil-map and unhashable-key panics, bounded progress of every operation"),
   note="weakest fit of the claimed properties (no faults, single thread): what is simulated is the randomness the code draws and the interleaving of range loops with mutations. Layer A scope: run-time library + descriptor computation (ssa/abi), with the assembly of descriptors into LLVM constants (ssa/abitype.go) re-implemented in the harness; the compiler lowering of map operations and the emitted descriptors are exercised by layer B (compiled interpreter, ~80 histories/s), whose generator stays outside the territory of the listed findings. Three unrepaired inherited defects (C06-K1..K3) are matched structurally in layer A."),
